@@ -7,6 +7,9 @@ requests
   fac <k> <a,a,…|->             factory of key k answers attribute list[id % len] (faithful when `-`)
   create k | delete ids | configure spec | configureall spec | reset | setstate i s     → ok | ERR (raises)
   callerappend t x              model.agent_ids(t).append(x)                             → ok | ERR
+  cfgn <0|1> <0|1>              next_agent_id incremented before the factory call / before initialize()
+  enter k | facdone | leave     re-entrant creation: create_agent(k) called / its factory returned / its initialize() returned (registered)
+                                                                                                  → ok | ERR (enter of an unregistered key)
   deleteown t ids|map           model.delete_agents(model.agent_ids(t)) / (model.agent_type_map[t])   → ok | ERR
   query                         every query on types 0..2, states 0..2, ids 0..next+1
   q lookup i | q ids t | q cnt t | q cps t s | q nx t s | q rnd t num u,u,…   single queries (u = 64·random())
@@ -42,6 +45,8 @@ structure St where
   c : Cfg
   tbl : List (Nat × List Nat)
   r : Reg
+  n : CfgN := { idReservedBeforeFactory := true, idReservedBeforeInitialize := true }
+  stack : List Frame := []
 
 def St.fac (s : St) : Fac := fun k i =>
   match s.tbl.lookup k with
@@ -71,8 +76,20 @@ def stepLine (s : St) (line : String) : St × String :=
   | ["deleteown", t, _] => match t.toNat? with
       | some t => ({ s with r := stepD s.c s.fac s.r (.deleteOwn t) }, if s.r.mapped t then "ok" else "ERR")
       | none => bad s
+  | ["cfgn", a, b] => ({ s with n := { idReservedBeforeFactory := a == "1", idReservedBeforeInitialize := b == "1" } }, "ok")
+  | ["enter", k] => match k.toNat? with
+      | some k =>
+          let x := stepN s.n s.fac { r := s.r, stack := s.stack } (.enter k)
+          ({ s with r := x.r, stack := x.stack }, if s.r.reg k then "ok" else "ERR")
+      | none => bad s
+  | ["facdone"] =>
+      let x := stepN s.n s.fac { r := s.r, stack := s.stack } .facDone
+      ({ s with r := x.r, stack := x.stack }, "ok")
+  | ["leave"] =>
+      let x := stepN s.n s.fac { r := s.r, stack := s.stack } .leave
+      ({ s with r := x.r, stack := x.stack }, "ok")
   | ["new", ks] => match parseNats ks with
-      | some ks => ({ s with tbl := [], r := Reg.init (fun t => ks.contains t) }, "ok")
+      | some ks => ({ s with tbl := [], r := Reg.init (fun t => ks.contains t), stack := [] }, "ok")
       | none => bad s
   | ["fac", k, l] => match k.toNat?, parseNats l with
       | some k, some l => ({ s with tbl := (k, l) :: s.tbl }, "ok")
